@@ -197,7 +197,7 @@ func VerifC03_Ante() {
 	}
 	// mutation of one signed field after signing
 	tx := types.NewStdTx(msg, feeCoins, types.StdSignature{PublicKey: sigKey, Signature: sig}, memo, entropy)
-	mutated := zz.Choice("mutate", 5)
+	mutated := zz.Choice("mutate", 7)
 	chain := a.ctx.ChainID()
 	switch mutated {
 	case 1:
@@ -210,6 +210,11 @@ func VerifC03_Ante() {
 		tx.Memo = "other memo"
 	case 4:
 		tx.Msg = postypes.MsgSend{FromAddress: signer, ToAddress: attacker, Amount: amount}
+	case 5:
+		// white space appended / prepended after signing is a change of a signed field too (seed C03-m11)
+		tx.Memo = memo + " "
+	case 6:
+		tx.Memo = "\t" + memo + "\n"
 	}
 	unchanged := mutated == 0 || (mutated == 1 && tx.Entropy == entropy) || (mutated == 2 && !foreign && tx.Fee.IsEqual(feeCoins))
 	_ = chain
